@@ -11,7 +11,7 @@ from pathlib import Path as FsPath
 
 import z3
 
-from ..common import REPO, Report, parse_args, pmap
+from ..common import REPLAYS, REPO, Report, parse_args, pmap
 from ..sh import shx
 from ..tv.translate import TEMPLATE_DIR, scratch_root
 
@@ -420,7 +420,7 @@ def main():
         for mm in r["replay_mismatch"]:
             rep.harness(f"{r['backend']} {r['history']}: shell model disagrees with real bash: {mm}")
         if r["violations"]:
-            d = FsPath(__file__).resolve().parents[2] / "replays" / "C16" / f"{r['backend']}-{abs(hash(json.dumps(r['history']))) % 10**8}"
+            d = REPLAYS / "C16" / f"{r['backend']}-{abs(hash(json.dumps(r['history']))) % 10**8}"
             d.mkdir(parents=True, exist_ok=True)
             (d / "finding.json").write_text(json.dumps(r, indent=1, default=str))
             seen = set()
